@@ -465,6 +465,7 @@ fn harmless_signals_slice(ctx: &Ctx) {
 }
 
 pub fn run(ctx: &Ctx) {
+    crate::checks::c13r::run(ctx);
     harmless_signals_slice(ctx);
     exit_status_sweep(ctx);
     shared_pipe_slice(ctx);
